@@ -44,6 +44,10 @@ def VLOOKUP(
 
     col_index_num = int(col_index_num)
 
+    if col_index_num < 1:
+        raise xlerrors.ValueExcelError(
+            'col_index_num must be at least 1')
+
     if col_index_num > len(table_array.values[0]):
         raise xlerrors.ValueExcelError(
             'col_index_num is greater than the number of cols in table_array')
@@ -52,7 +56,7 @@ def VLOOKUP(
     # that duplicate keys are fine.
     for row in table_array.values:
         if row[0] == lookup_value:
-            return row[1]
+            return row[col_index_num - 1]
 
     raise xlerrors.NaExcelError(
         '`lookup_value` not in first column of `table_array`.')
